@@ -40,7 +40,9 @@ ACTIONS = ["ActReg", "ActUnreg", "ActRequire", "ActSetOut", "ActProvide", "ActRe
 QACTIONS = ["RunA", "RunB"]
 NEG = [("setout_keeps_old", "PathInv"), ("setout_no_reissue", "PathInv"),
        ("unreg_first_proxy", "PathInv"), ("death_keeps_regs", "StepNoSinkFreedWithRegs"),
-       ("oob_no_check", "StepNoCallbackAfterUnregister"), ("setout_one_pass", "OneEntry")]
+       ("oob_no_check", "StepNoCallbackAfterUnregister"), ("setout_one_pass", "OneEntry"),
+       ("unreg_full_keeps", "StepNoCallbackAfterUnregister")]
+OOB = 255        # length of the out-of-band queues of upipe_queue_source.c
 TYPEIDX = {"uref_mgr": 0, "flow_format": 1, "ubuf_mgr": 2, "uclock": 3, "sink_latency": 4}
 ENV = {"ASAN_OPTIONS": "detect_leaks=1:abort_on_error=0:exitcode=97",
        "UBSAN_OPTIONS": "print_stacktrace=1:halt_on_error=1:exitcode=98"}
@@ -746,6 +748,102 @@ def random_histories(ctx, binp, scns, nexec, length, tag, tour_pairs):
             "rejected": len(rej)}
 
 
+# ------------------------------------------------------------ full out-of-band queue
+def overflow_scripts(scn, rng, nrand):
+    """Directed scripts that fill the downstream out-of-band queue of the real queue (255 messages) so that
+    one register / unregister message is refused, then drain it; a seeded random tail follows.  The counts
+    are exact because the scripts start from a fresh scenario and only use commands whose number of
+    messages is known (one per reg / unreg that crosses the queue sink, one popped per loop B)."""
+    out = []
+    for sid in ("S", "Q"):
+        c = scn.get(sid)
+        if c is None:
+            continue
+        app = [r for r in c["reqs"] if c["owner"][r] == NONE]
+        if len(app) < 2:
+            continue
+        ra, rb = app[0], app[1]
+        if sid == "S":
+            e, plumb = "qk", [C("out", "qs", "s0")]
+        else:
+            e, plumb = "p0", [C("out", "p0", "qk"), C("out", "qs", "p1"), C("out", "p1", "s0")]
+        hold = "s0"
+
+        def burst(n):
+            x = []
+            for _ in range(n):
+                x += [C("reg", e, rb), C("unreg", e, rb)]
+            return x
+        drain = [C("loop", "B")] * (OOB + 2) + [C("loop", "A")] * 6
+        variants = []
+        # the unregistration of a request that is registered beyond the queue is refused
+        variants.append(plumb + [C("reg", e, ra), C("loop", "B")] + burst(127) + [C("reg", e, rb), C("unreg", e, ra),
+                        C("provide", hold, ra), C("loop", "A"), C("loop", "A")] + drain +
+                        [C("provide", hold, ra), C("loop", "A"), C("reg", e, ra), C("loop", "B"), C("provide", hold, ra),
+                         C("loop", "A"), C("loop", "A")])
+        # the same while its registration is still under way
+        variants.append(plumb + [C("reg", e, ra)] + burst(127) + [C("unreg", e, ra)] + drain +
+                        [C("provide", hold, ra), C("loop", "A"), C("loop", "A")])
+        # a registration is refused, unregistered later, registered again
+        variants.append(plumb + burst(127) + [C("reg", e, rb), C("reg", e, ra), C("provide", hold, ra), C("unreg", e, ra)]
+                        + drain + [C("reg", e, ra), C("loop", "B"), C("provide", hold, ra), C("loop", "A"), C("loop", "A")])
+        # one slot left: the registration passes, the unregistration does not
+        variants.append(plumb + burst(127) + [C("reg", e, ra), C("unreg", e, ra), C("loop", "B"), C("unreg", e, rb)]
+                        + drain + [C("provide", hold, ra), C("loop", "A"), C("loop", "A")])
+        for v in variants:
+            sc = close_script(c, v, tag="overflow")
+            if sc is not None:
+                out.append(sc)
+        for _ in range(nrand):
+            k = rng.below(len(variants))
+            tail = gen_random(rng, c, 6 + rng.below(20))
+            sc = close_script(c, variants[k] + (tail.cmds[:tail.nsteps] if tail is not None else []), tag="overflow+random")
+            if sc is not None:
+                out.append(sc)
+    return out
+
+
+def overflow_histories(ctx, binp, scn):
+    rng = vlib.Rng(ctx.seed * 104729 + 5)
+    scripts = overflow_scripts(scn, rng, 4 if ctx.quick else 60)
+    if not scripts:
+        raise vlib.ToolError("no queue scenario for the full-queue scripts")
+    outs = run_all(ctx, binp, scripts, "overflow", chunk=20)
+    pairs = [(s, o[0]) for s, o in zip(scripts, outs) if o is not None]
+    refused = sum(1 for s, o in pairs for (evs, ret) in o if ret and ret[0] == "8")
+    rej, nev = validate(ctx, pairs, "overflow")
+    ctx.evaluations += nev
+    if pairs and not refused:
+        raise vlib.ToolError("vacuity: no register / unregister command of the full-queue scripts was refused "
+                             "(UBASE_ERR_BUSY) by the real queue sink")
+    if rej and len(ctx.violations) <= BASEV[0]:
+        i, k, info = rej[0]
+        s = pairs[i][0]
+        # no shrinking (the counts matter): reported as recorded, after a re-run
+        res, crash = run_batch(ctx, binp, [s])
+        rej2, _ = validate(ctx, [(s, res[0][0])], "overflow_confirm", count=False, max_reject=1) if res else ([], 0)
+        if not rej2:
+            raise vlib.ToolError("full-queue script: the rejection did not reproduce when re-run alone")
+        k2, info2 = rej2[0][1], rej2[0][2]
+        short = [cmd_text(x) for x in s.cmds[:k2 + 1] if x["op"] != "loop"]
+        comp, prev, n = [], None, 0
+        for t in short + [None]:
+            if t == prev:
+                n += 1
+                continue
+            if prev is not None:
+                comp.append(prev if n == 1 else "%s x%d" % (prev, n))
+            prev, n = t, 1
+        key = "%s;full-queue;%s" % (scn_sig(s.c), cmd_text(s.cmds[k2]))
+        ctx.violation(key, "scenario %s with the out-of-band queue of the real queue filled (255 messages): at '%s' "
+                      "the real code shows %s, which is not a behaviour of Requests (%s); commands (loops omitted): %s"
+                      % (scn_sig(s.c), cmd_text(s.cmds[k2]), json.dumps(info2["event"].get("evs")),
+                         "invariants " + str(info2["invariants"]) if info2["invariants"] else "events differ from the specification's",
+                         ", ".join(comp[-14:])),
+                      {"cfg": s.c, "cmds": s.cmds[:k2 + 1], "stdin": s.lines(), "source": "overflow"})
+    return {"scripts": len(pairs), "events": nev, "commands_refused_by_the_full_queue": refused, "rejected": len(rej)}
+
+
 # ------------------------------------------------------------ suspected defect (bins)
 def bin_counterexample(ctx, binp, scn, r):
     """TLC's counterexample of the fall-through model (r = the TLC result), replayed on the
@@ -864,8 +962,9 @@ def run(ctx):
         "providers answer when told to (holding sink), or at registration time (probes, throwing sink); a probe "
         "is configured before the first registration",
         "the queue is crossed by one sink per queue; its two event loops are mock loops (harness/vloop.c) that "
-        "run one iteration when the scenario says so; queue pipes are released only at the end; fewer than 255 "
-        "out-of-band messages are pending at any time (the fixed length of the real out-of-band queues)",
+        "run one iteration when the scenario says so; queue pipes are released only at the end; a register / "
+        "unregister message refused by a full out-of-band queue (255 messages) takes the request out of the "
+        "sentences about forwarding - only 'no call-back after unregister' is still required of it",
         "the order of events inside one command, proxy depths, provide_request events seen by probes and return "
         "codes are details: a difference there alone is recorded as model drift, not reported",
     ]
@@ -883,6 +982,7 @@ def run(ctx):
         jobs["in"] = lambda: exhaustive(ctx, "MCRequests_t_in.cfg", ACTIONS)
         jobs["queue"] = lambda: exhaustive(ctx, "MCRequests_t_queue.cfg", [a for a in ACTIONS if a != "ActRel"] + QACTIONS)
         jobs["bin"] = lambda: exhaustive(ctx, "MCRequests_t_bin.cfg", [a for a in ACTIONS if a != "ActRequire"])
+    jobs["full"] = lambda: ctx.tlc("MCRequests", "MCRequests_full.cfg", workers=2, timeout=900)
     jobs["binfall"] = lambda: ctx.tlc("MCRequests", "MCRequests_binfall.cfg", workers=1, count=False, timeout=600)
     jobs["scn"] = lambda: ctx.tlc("MCRequests", "MCRequests_scn.cfg", workers=1, count=False, timeout=300)
     for v, inv in negs:
@@ -897,6 +997,7 @@ def run(ctx):
     ctx.extra["scenarios"] = {k: scn_sig(v) for k, v in sorted(scn.items())}
     bin_ids = [k for k in scn if any(scn[k]["nothrow"].values())]
 
+    ctx.model_must_hold(done["full"], "Requests/full out-of-band queue (scenario T)")
     # 2. negative configurations
     for v, inv in negs:
         r = done["neg_" + v]
@@ -946,3 +1047,6 @@ def run(ctx):
     rh = [random_histories(ctx, binp, scns, 270 if q else 1800, 40 if q else 90, "all", tour_pairs)]
     ctx.extra["random_histories"] = rh
     lap("random")
+    # 6. the out-of-band queue of the real queue filled to its 255 messages
+    ctx.extra["full_queue"] = overflow_histories(ctx, binp, scn)
+    lap("overflow")
